@@ -10,14 +10,15 @@ Local Open Scope N_scope.
 Section VlogSpec.
 Variable crc : list byte -> N.
 Variable cfg : vcfg.
+Variable chk : bool.      (* the run-time clean-up call sites test for registered readers (Vlog.v vs_cleanup_rt) *)
 
-Definition reachable (st : vstate) : Prop := exists ops, vs_run crc cfg ops vs0 = Some st.
+Definition reachable (st : vstate) : Prop := exists ops, vs_run crc cfg chk ops vs0 = Some st.
 
 (* B0. a flush records, entry by entry and in order, the keys and user values of the memtable it was given
    (the ghost field te_orig is what the theorems below compare reads with) *)
 Definition flush_records_values_stmt : Prop :=
   forall now tid mem st st',
-    vs_flush crc cfg now tid mem st = Some st' ->
+    vs_flush crc cfg chk now tid mem st = Some st' ->
     exists t, In t (vs_tables st') /\ tb_id t = tid /\ map (fun e => (te_key e, te_orig e)) (tb_entries t) = mem.
 
 (* B1. every value held by a live table or by the version index — inline or separated, whatever its size —
@@ -62,13 +63,15 @@ Definition files_synced_stmt : Prop :=
 Definition ids_never_reused_stmt : Prop :=
   vlog_params_ok = true ->
   forall ops1 ops2 st1 st2,
-    vs_run crc cfg ops1 vs0 = Some st1 -> vs_run crc cfg ops2 st1 = Some st2 ->
+    vs_run crc cfg chk ops1 vs0 = Some st1 -> vs_run crc cfg chk ops2 st1 = Some st2 ->
     vs_next st1 <= vs_next st2 /\
     forall f, In f (vs_files st2) -> (exists f1, In f1 (vs_files st1) /\ vf_id f1 = vf_id f) \/ vs_next st1 <= vf_id f.
 
-(* B4. readers holding an OLDER table set (taken before a compaction): the clean-up does not look at them.
-   What holds: such a reader never gets WRONG bytes — a read gives the value written or fails.
-   What does not hold (old_reader_safe_stmt is refuted by a closed witness): that it always gets the value. *)
+(* B4. readers holding an OLDER table set (taken before a compaction).  The clean-up FUNCTION does not look at them; its
+   run-time call sites do when chk.  For every chk such a reader never gets WRONG bytes — a read gives the value written or
+   fails (old_reader_never_wrong).  old_reader_safe_stmt — it always gets the value — is
+     * a theorem for the generated flag (old_reader_served_stmt: VLOG_CLEANUP_CHECKS_READERS = true in the repaired tree),
+     * refuted by a closed witness for chk = false, the rule before the repair (regression record of finding C11-N1). *)
 Definition old_reader_never_wrong_stmt : Prop :=
   vlog_params_ok = true ->
   forall st, reachable st ->
@@ -80,7 +83,17 @@ Definition old_reader_safe_stmt : Prop :=
       fst (vs_resolve crc cfg st (te_enc e)) = Some v.
 End VlogSpec.
 
-(* the refutation: some checksum function, configuration and accepted run leave an open reader with an entry
+(* every value — separated or inline — of every table set an open reader holds resolves to the bytes that were flushed, in
+   every reachable state of the machine run with the GENERATED rule *)
+Definition old_reader_served_stmt : Prop :=
+  vlog_params_ok = true ->
+  forall crc cfg, old_reader_safe_stmt crc cfg VLOG_CLEANUP_CHECKS_READERS.
+(* the rule before the repair: some checksum function, configuration and accepted run leave an open reader with an entry
    that no longer resolves *)
-Definition old_reader_unprotected_stmt : Prop :=
-  exists crc cfg, ~ old_reader_safe_stmt crc cfg.
+Definition old_reader_unprotected_without_check_stmt : Prop :=
+  exists crc cfg, ~ old_reader_safe_stmt crc cfg false.
+(* nothing leaks: the deferred clean-up is the ordinary one as soon as no reader is registered; and it is only deferred *)
+Definition cleanup_runs_without_readers_stmt : Prop :=
+  forall chk st, vs_readers st = [] -> vs_cleanup_rt chk st = vs_cleanup st.
+Definition cleanup_deferred_with_readers_stmt : Prop :=
+  forall st, vs_readers st <> [] -> vs_cleanup_rt true st = st.
